@@ -25,11 +25,19 @@ const smallSchema = `{"$ref":"#/definitions/Root","definitions":{
   "u":{"oneOf":[{"$ref":"#/definitions/S"},{"$ref":"#/definitions/T"}]},
   "v":{"oneOf":[{"type":"string"},{"type":"boolean"}]},
   "s":{"$ref":"#/definitions/S"},
-  "k":{"$ref":"#/definitions/K"}}},
+  "k":{"$ref":"#/definitions/K"},
+  "as":{"$ref":"#/definitions/AliasS"},
+  "aa":{"$ref":"#/definitions/AliasAlias"},
+  "ae":{"$ref":"#/definitions/AliasE"},
+  "al":{"$ref":"#/definitions/AliasList"}}},
 "S":{"type":"object","required":["kind"],"properties":{"kind":{"type":"string","const":"s"},"x":{"type":"string"}}},
 "T":{"type":"object","required":["kind"],"properties":{"kind":{"type":"string","const":"t"},"y":{"type":"integer"}}},
 "E":{"type":"string","enum":["a","b"]},
-"K":{"type":"string","const":"kk"}}}
+"K":{"type":"string","const":"kk"},
+"AliasS":{"$ref":"#/definitions/S"},
+"AliasAlias":{"$ref":"#/definitions/AliasS"},
+"AliasE":{"$ref":"#/definitions/E"},
+"AliasList":{"type":"array","items":{"$ref":"#/definitions/S"}}}}
 `
 
 // oddValuesSchema is the small schema with constants, defaults and enum values
@@ -59,8 +67,8 @@ const oddValuesSchema = `{"$ref":"#/definitions/Root","definitions":{
 
 // the objects and the options of builder Root (targets for the rule × target products)
 var (
-	smallObjects = []string{"Root", "S", "T", "E", "K", "Missing"}
-	rootOptions  = []string{"name", "flag", "count", "tags", "labels", "inner", "e", "u", "v", "s", "k", "missing"}
+	smallObjects = []string{"Root", "S", "T", "E", "K", "AliasS", "AliasAlias", "AliasE", "AliasList", "Missing"}
+	rootOptions  = []string{"name", "flag", "count", "tags", "labels", "inner", "e", "u", "v", "s", "k", "as", "aa", "ae", "al", "missing"}
 )
 
 // ---- templates -------------------------------------------------------------------------------
@@ -205,7 +213,7 @@ const fullInput = `  - if: '"%who%" == "p"'
     jsonschema:
       path: '%DIR%/p.json'
       package: p
-      allowed_objects: [Root, S, T, E, K]
+      allowed_objects: [Root, S, T, E, K, AliasS, AliasAlias, AliasE, AliasList]
       transformations: ['%DIR%/input-passes.yaml']
       metadata: {kind: core, variant: panelcfg, identifier: Ident}
 `
@@ -682,6 +690,14 @@ func configSpace(thorough bool) (cases []configCase, templates []configCase) {
 					continue
 				}
 				add("veneers/"+t.Name+" ("+from+") := "+o, configFiles(plainPipe, noPasses, doc), doc)
+			}
+			// compose: the source builder is named with its package; every
+			// object as source × every object as composed builder
+			if strings.Contains(t.YAML, "source_builder_name: p.S") {
+				for _, selected := range smallObjects {
+					doc := strings.Replace(strings.Replace(t.YAML, "source_builder_name: p.S", "source_builder_name: p."+o, 1), "by_object: T", "by_object: "+selected, 1)
+					add("veneers/"+t.Name+" source := p."+o+" composing "+selected, configFiles(plainPipe, noPasses, doc), doc)
+				}
 			}
 		}
 	}
